@@ -19,6 +19,7 @@ def plan(pid, tier, seed):
                    "sample": 1500 if quick else 40000, "properties": ["C01_IdentExact", "C01_FullExact"], "timeout": 1800, "pid": pid, "decl": True})
     return {
         "harness": "javamodel",
+        "needs_coca": True,
         "mc": mc,
         "gen": [],
         "rand": (300 if quick else 8000),
